@@ -779,6 +779,14 @@ def run_config(c, m=None):
         judge("cost", lambda: L.cost(apply_weighting=aw), full_theta(c["theta0"]), x0, "cost")
         judge("cost", lambda: L.cost(np.array(c["theta1"]), apply_weighting=aw), full_theta(c["theta1"]), x0, "cost")
         judge("residual", lambda: L.residual(np.array(c["theta1"]), apply_weighting=aw), full_theta(c["theta1"]), x0, "resid")
+
+        def shared_model_cost():
+            # somebody else (another loss object, the user) reassigns the parameters of the shared model object:
+            # the loss must still integrate with ITS theta (the last one it was given)
+            # (only the parameters this loss object estimates: the others are, by design, read from the model)
+            m.parameters = {pn[i]: float(theta_true[i]) * 1.37 + 0.01 for i in tsel}
+            return L.cost(apply_weighting=aw)
+        judge("cost-after-model-reassigned", shared_model_cost, full_theta(c["theta1"]), x0, "cost")
         th_iv = c["theta_iv"]
         x0_eff = list(x0)
         for i, v in zip(ssel, th_iv[len(tsel):]):
